@@ -1591,7 +1591,17 @@ func (x *Exec) index(st *State, e *ast.IndexExpr, k func(*State, Term)) {
 				x.expr(st, e.Index, func(st *State, idx Term) {
 					x.oblige(st, "no-panic", "no-panic[index]", fmt.Sprintf("(and (<= 0 %s) (< %s (slen %s)))", idx.S, idx.S, s.S), e)
 					f := x.d.fun("strbyte", []string{"StrId", "Int"}, "Int")
-					k(st, Term{S: fmt.Sprintf("(%s (sbase %s) (+ (soff %s) %s))", f, s.S, s.S, idx.S), Sort: "Int", T: types.Typ[types.Byte]})
+					bt := fmt.Sprintf("(%s (sbase %s) (+ (soff %s) %s))", f, s.S, s.S, idx.S)
+					st.assume(fmt.Sprintf("(and (<= 0 %s) (<= %s 255))", bt, bt))
+					if _, ok := x.d.sigs["decr"]; ok {
+						// UTF-8 (trusted): a byte below 0x80 at a rune start decodes to itself with width 1
+						pos := fmt.Sprintf("(+ (soff %s) %s)", s.S, idx.S)
+						end := fmt.Sprintf("(+ (soff %s) (slen %s))", s.S, s.S)
+						st.assume(fmt.Sprintf("(=> (< %s 128) (and (= (decr (sbase %s) %s %s) %s) (= (decw (sbase %s) %s %s) 1)))", bt, s.S, pos, end, bt, s.S, pos, end))
+						st.assume(fmt.Sprintf("(=> (>= %s 128) (not (= (decr (sbase %s) %s %s) %s)))", bt, s.S, pos, end, bt))
+						x.assumed["UTF-8 (trusted): a byte < 0x80 at a rune start decodes to itself with width 1; a byte >= 0x80 never decodes to its own value"] = true
+					}
+					k(st, Term{S: bt, Sort: "Int", T: types.Typ[types.Byte]})
 				})
 			})
 			return
